@@ -269,7 +269,9 @@ fn exec_supply_inner(check: &str, t: &SupplyTrace, scratch: &Scratch, rec: &mut 
         d.str(if t.same_thread { v.verdict_class() } else { &masked });
         // (likewise how many sub-layouts, and so how many clock reads, come before the failing one)
         d.update(&(if t.same_thread && !v.ok { 0 } else { v.clock_reads as u64 }).to_le_bytes());
-        d.update(&(v.hash_draws as u64).to_le_bytes());
+        // (how often the hash seam was drawn from is a witness of the seam, not of the library: a library
+        // that hashes files on helper threads draws once per helper that happens to build a map)
+        let _ = v.hash_draws;
         if let Some(s) = &v.summary {
             d.str(&s.to_string());
         }
